@@ -25,6 +25,9 @@ type Frame struct {
 	IsDeferCall bool
 	GhostIn  map[string]Value // values of named things at entry (params)
 	retDst   ssa.Value
+	OnReturn func(ex *Exec, st *State, res Value) Value
+	CalleeName string
+	CallArgs []Value
 	Args     []Value
 	Names    map[string]Value
 }
@@ -60,6 +63,9 @@ type State struct {
 	Depth   int
 	Dead    bool
 	Held    map[string]int
+	DagObjs map[string]*Object
+	Open    map[*Object]bool // ancestor walkers whose producer has not finished
+	Written map[*Object]bool // pre-existing objects that were stored to or havocked
 }
 
 func (st *State) Top() *Frame { return st.Frames[len(st.Frames)-1] }
@@ -98,8 +104,17 @@ func (st *State) Clone() *State {
 	for k, v := range st.PreHeap {
 		n.PreHeap[k] = v
 	}
-	n.PreGhost = st.PreGhost
 	n.Notes = append([]string(nil), st.Notes...)
+	n.DagObjs = st.DagObjs
+	n.Written = make(map[*Object]bool, len(st.Written))
+	for k, v := range st.Written {
+		n.Written[k] = v
+	}
+	n.Open = st.Open
+	n.PreGhost = make(map[string]Value, len(st.PreGhost))
+	for k, v := range st.PreGhost {
+		n.PreGhost[k] = v
+	}
 	n.Held = make(map[string]int, len(st.Held))
 	for k, v := range st.Held {
 		n.Held[k] = v
